@@ -134,6 +134,20 @@ class World:
             conns["w"] = StubConnector("w", {"w0": wl}, inner=conns["b"])
             self.level["w0"] = "b0"
             self.targets = {"w": 1, "b": 1}
+        elif topo == "stacked3":
+            # three levels: v0 (deployment "v") stacked on w0 ("w") stacked on b0 ("b"); binds '/' -> '/' at both levels
+            self.caps["v0"], self.caps["w0"], self.caps["b0"] = caps[0], caps[1], caps[2]
+            base = AvailableLocation(name="b0", deployment="b", hostname="hb", hardware=hw(caps[2]))
+            whw = Hardware(cores=caps[1][0], memory=caps[1][1], storage={mount: Storage(mount_point=mount, size=caps[1][2], bind=mount)})
+            wl = AvailableLocation(name="w0", deployment="w", hostname="hw", stacked=True, hardware=whw, wraps=base)
+            vhw = Hardware(cores=caps[0][0], memory=caps[0][1], storage={mount: Storage(mount_point=mount, size=caps[0][2], bind=mount)})
+            vl = AvailableLocation(name="v0", deployment="v", hostname="hv", stacked=True, hardware=vhw, wraps=wl)
+            conns["b"] = StubConnector("b", {"b0": base})
+            conns["w"] = StubConnector("w", {"w0": wl}, inner=conns["b"])
+            conns["v"] = StubConnector("v", {"v0": vl}, inner=conns["w"])
+            self.level["v0"] = "w0"
+            self.level["w0"] = "b0"
+            self.targets = {"v": 1, "w": 1, "b": 1}
         elif topo == "two_deployments":
             self.caps["x0"], self.caps["y0"] = caps[0], caps[1]
             conns["x"] = StubConnector("x", {"x0": AvailableLocation(name="x0", deployment="x", hostname="hx", hardware=hw(caps[0]))})
@@ -236,7 +250,9 @@ class World:
         if op == "V":
             return st in (RUNNING, FIREABLE, FAILED)
         if op == "B":
-            return st in (COMPLETED, FAILED, RECOVERY)
+            # the failure manager rolls back jobs that are not executing, but the scheduler API also
+            # accepts a direct ROLLBACK of a FIREABLE/RUNNING job (and a repeated ROLLBACK)
+            return True
         return False
 
     def do(self, j, op):
